@@ -156,9 +156,10 @@ pub fn eval_op(
             })
             .collect(),
         UOp::MapMemo { m } => input.iter().map(|r| f_memo(f_memo_key(r, *m))).collect(),
-        UOp::SplitZip { m, filter_left: _ } => {
-            let kept = input.iter().filter(|r| r.v.rem_euclid(*m) != 0).count();
-            vec![f_zip_anon(); kept.min(input.len())]
+        UOp::SplitZip { m, m2 } => {
+            let left = input.iter().filter(|r| r.v.rem_euclid(*m) != 0).count();
+            let right = input.iter().filter(|r| r.v.rem_euclid(*m2) != 1).count();
+            vec![f_zip_anon(); left.min(right)]
         }
         UOp::Replay { rounds, body, stop_m, stop_r } => {
             let mut st = LState::default();
